@@ -55,6 +55,16 @@ def run(pid, tier, seed, replay):
                         ctx.tie_problems.append({"what": "correspondence Repl.Acks.lcases_mismatches (concurrency-control partitions): history %d differs from the model after step %d" % (c["id"], b),
                                                  "first": [{"step": c["steps"][b], "case": {"id": c["id"], "steps": c["steps"][:b + 1]}}]})
                         break
+    # API level: unary Publish, PublishAsync sessions and racing publishers; the oracle is the property's rule
+    alines = ctx.go_driver("server", ["server/srv_test.go", "server/partdrv_test.go", "server/c16_test.go"], "^TestVerifC16Api$",
+                           env={"VERIF_N": 5 if tier == "quick" else 60}, timeout=3000)
+    api_cases = [l for l in alines if l.get("k") == "occ"]
+    for l in alines:
+        if l.get("k") == "stat":
+            dist.update({"api/" + k: v for k, v in l["dist"].items()})
+        if l.get("k") == "violation":
+            ctx.add_violation(l["sig"], l["what"], [l["case"]])
+    ctx.coverage["api_histories"] = len(api_cases)
     mism, nshards = eval_log_cases(ctx, cases, "c16")
     if mism:
         ctx.tie_problems.append({"what": "correspondence Log.Check.lcases_mismatches: %d histories differ from the model" % len(mism),
